@@ -45,7 +45,31 @@ type BytesMsg struct {
 	B  []byte
 }
 
+// PadTagMsg writes a raw padding first and a short-string tag last: with a long tag the writer has already grown by
+// the size of the padding when the encode fails.
+type PadTagMsg struct {
+	Pad []byte
+	Tag string
+}
+
 func init() {
+	vivid.RegisterCustomMessage[*PadTagMsg]("verifPadTagMsg",
+		func(message any, r *messages.Reader, codec messages.Codec) error {
+			m := message.(*PadTagMsg)
+			if err := r.ReadInto(&m.Pad); err != nil {
+				return err
+			}
+			t, err := r.ReadShortString()
+			m.Tag = t
+			return err
+		},
+		func(message any, w *messages.Writer, codec messages.Codec) error {
+			m := message.(*PadTagMsg)
+			if err := w.WriteFrom(m.Pad); err != nil {
+				return err
+			}
+			return w.WriteShortString(m.Tag).Err()
+		})
 	vivid.RegisterCustomMessage[*BytesMsg]("verifBytesMsg",
 		func(message any, r *messages.Reader, codec messages.Codec) error {
 			m := message.(*BytesMsg)
@@ -260,6 +284,7 @@ func Corpus() map[string][]any {
 	c["clusterSingletonForwardedMessage"] = append(c["clusterSingletonForwardedMessage"], cluster.VerifSingletonForwarded(nil, new(vivid.OnLaunch), "1.2.3.4:5", "/p"))
 	c["verifCustomMsg"] = []any{&CustomMsg{}, &CustomMsg{N: math.MinInt32, T: Strings[3]}}
 	c["verifBytesMsg"] = []any{&BytesMsg{}, &BytesMsg{ID: "b", B: []byte{0, 1, 2, 255}}, &BytesMsg{ID: Strings[3], B: bytes.Repeat([]byte{7}, 5000)}}
+	c["verifPadTagMsg"] = []any{&PadTagMsg{}, &PadTagMsg{Pad: []byte{1, 2}, Tag: "t"}, &PadTagMsg{Pad: bytes.Repeat([]byte{3}, 70000), Tag: strings.Repeat("T", 255)}}
 	c["verifShortTagMsg"] = []any{&ShortTagMsg{}, &ShortTagMsg{Tag: "t"}, &ShortTagMsg{Tag: strings.Repeat("T", 255)}}
 	return c
 }
